@@ -262,8 +262,23 @@ def run(ctx):
                 sig = "C13.suggestions_differ:l2d_stack_cache"
             failures.append({"clause": cl, "signature": sig, "detail": det,
                              "replay": {"kind": r["kind"], "seed": r["seed"], "nops": r["nops"]}})
+    # Learner2D's bookkeeping model restored the same three ways (copy_from, save/load, pickle) in the middle of histories:
+    # AdaptiveModel/L2D.lean (setData / restoreFile / setState) against the real class, bit for bit
+    from harness import l2d_drive
+    corr = core.Corr("Learner2D~L2D.lean (with copy_from, save/load and pickle restores)")
+    lrng = random.Random(ctx.rng.randrange(1 << 30))
+    lcases = [dict(c) for c in l2d_drive.CORPUS] + [l2d_drive.gen_case(lrng, ctx.n(40, 60)) for _ in range(ctx.n(100, 1500))]
+    lres = core.pmap(l2d_drive._one, lcases)
+    for r in lres:
+        for k, v in r["stats"].items():
+            corr.count(k, int(v))
+        if r["err"] and str(r["err"]).startswith("harness"):
+            raise RuntimeError(r["err"])
+        if r["err"]:
+            corr.count("history_cut_by_exception_of_the_geometry")
+    core.lockstep(corr, lres, shards=ctx.n(4, 12))
     return core.conclude(
-        ctx, proof, [], failures,
+        ctx, proof, [corr], failures,
         rule="histories (out-of-order delivery, unsuggested points, pending marks, discards, scalar and vector outputs) ending with no "
              "pending points, for 24 learner kinds incl. wrappers, restored through save/load with and without gzip, pickle, "
              "cloudpickle and copy_from; Learner1D with _recompute_losses_factor = 1 as the property says; "
